@@ -14,6 +14,7 @@ mod c01;
 mod c02;
 mod c03;
 mod c04;
+mod c05;
 mod fdtxml;
 mod c06;
 mod c07;
@@ -80,6 +81,7 @@ fn main() {
             "C02" => c02::replay(&v["replay"]),
             "C03" => c03::replay(&v["replay"]),
             "C04" => c04::replay(&v["replay"]),
+            "C05" => c05::replay(&v["replay"]),
             "C06" => c06::replay(&v["replay"]),
             "C07" => c07::replay(&v["replay"]),
             "C08" => c08::replay(&v["replay"]),
@@ -115,6 +117,7 @@ fn main() {
             "C02" => c02::run(thorough),
             "C03" => c03::run(thorough),
             "C04" => c04::run(thorough),
+            "C05" => c05::run(thorough),
             "C06" => c06::run(thorough),
             "C07" => c07::run(thorough),
             "C08" => c08::run(thorough),
